@@ -454,6 +454,12 @@ func (c *ctx) joinCase() {
 		e["post"] = phyToVal(enc)
 		c.emit(e)
 		if r == "" {
+			// a COPY of the encrypted frame value is decrypted first (a server keeps the encrypted frame for the downlink
+			// and inspects a copy): the encrypted frame must stay the specification's ciphertext
+			cpy := *enc
+			observeFast(func() error { return cpy.DecryptJoinAcceptPayload(key) })
+			e2 := M{"ev": "encja", "key": bs(key[:]), "pre": e["pre"], "err": "", "post": phyToVal(enc), "label": "after-decrypting-a-copy"}
+			c.emit(e2)
 			d := M{"ev": "decja", "key": bs(key[:]), "pre": phyToVal(enc)}
 			r2, _ := observeFast(func() error { return enc.DecryptJoinAcceptPayload(key) })
 			d["err"] = r2
